@@ -54,14 +54,7 @@ func (w *worker) execute(c Cfg, path []Op) (prefixCanon string, o *Obs) {
 	for i, op := range path {
 		last := i == len(path)-1
 		if last {
-			var mem string
-			for j := range s.parents {
-				if j > 0 {
-					mem += "\n"
-				}
-				mem += memString(&s.parents[j])
-			}
-			prefixCanon = takeSnap(w.env).String() + mem
+			prefixCanon = takeSnap(w.env).String() + strings.Join(s.memory(), "\n")
 		}
 		o = s.apply(op, last)
 		if !last && (o.Panic != "" || o.Err != "") {
@@ -116,6 +109,9 @@ func explore(run *mc.Run, c Cfg, maxDepth int, levelCap int, workers []*worker, 
 		}
 	}()
 	alpha := alphabet(c.Kind, c.Slice)
+	if c.Focus {
+		alpha = focusAlphabet(c.Kind)
+	}
 	st.AlphabetSize = len(alpha)
 	ps := c.parents()
 
@@ -376,6 +372,15 @@ func main() {
 			}
 			cfgs = append(cfgs, c)
 		}
+		if !slice {
+			for k := Kind(0); k < numKinds; k++ {
+				c := Cfg{Kind: k, Focus: true}
+				if only := os.Getenv("VERIF_C12_ONLY"); only != "" && !strings.Contains(","+only+",", ","+c.String()+",") {
+					continue
+				}
+				cfgs = append(cfgs, c)
+			}
+		}
 	}
 	{
 		for ci, c := range cfgs {
@@ -414,7 +419,7 @@ func main() {
 	}
 
 	run.Assume("SQLite dialect; models without hooks, soft delete, composite keys or NOT NULL foreign keys; FullSaveAssociations off; default transaction mode")
-	run.Assume("the in-memory parent value starts with the relation under test loaded (as after Preload) and every call of a sequence is made through the same value; argument records are fresh values carrying key and name only")
+	run.Assume("the in-memory parent value starts with the relation under test loaded (as after Preload) and every call of a sequence is made through the same value; argument records are fresh values carrying key and name only, except the two persistent values of the single-parent configurations (kept-t3, kept-new), which are created once per history, passed again by later calls and are part of the canonical state")
 	run.Assume("Unscoped is modelled as documented: records whose link an Unscoped Replace/Delete/Clear removes are deleted (not for many2many, where only join rows go); links a bystander parent holds to such a record stay stored")
 	run.Assume("Append() without values on a slice of parents may return ErrInvalidValueOfLength (one value per parent is gorm's rule) but must change nothing; left out as not determined by the documentation: several values for has-one/belongs-to; one keyed record given to both parents of a slice in one call (has-one/has-many/polymorphic); Append that moves a record between the two operated parents of a slice; Unscoped belongs-to Replace that hands the old record of one operated parent to the other; Count()/Find() multiplicity when two operated parents share a target (either the number of links or of distinct records is accepted)")
 	run.Assume("calls with one key-less value are enabled while no record created from a key-less value is stored, calls with several key-less values likewise (so at most 2 such records are stored at any time); canonical in-memory form is the sorted set of distinct elements (order and repetition inside the relation slice are not part of the state)")
